@@ -14,9 +14,9 @@ LaySmall == L1 \cup L2 \cup L3
 LayMid == LaySmall \cup L4
 LayBig == LayMid \cup L5 \cup L6
 NoCounts == {}
-HostCounts == {-1, 0, 1, 2, 3, 4}
+HostCounts == {-1, 0, 1, 2, 3, 4, 99}
 HostLens == {0, 1, 2, 3, 4}
 AllKinds == {"tx", "g2", "g3"}
-MalAll == {"blk", "tx", "batch", "blkreq", "blkresp", "peermsg", "ltraw"}
+MalAll == {"blk", "tx", "batch", "blkreq", "blkresp", "peermsg", "ltraw", "ltdup"}
 MalNone == {}
 ====
